@@ -266,7 +266,11 @@ class SimConn(object):
       self.marks.append((self.fed_total, mark))
     self.net._log('feed', self, n=len(data))
     if self._is_waiting('recv'):
-      self.net.loop.run_callback(self._recv_ready)
+      if self.net.direct_wake and self.net._in_hub():
+        # as an I/O watcher does: the parked reader runs inside the event that made the socket readable
+        self._recv_ready()
+      else:
+        self.net.loop.run_callback(self._recv_ready)
 
   def _recv_ready(self):
     if self._is_waiting('recv'):
@@ -296,6 +300,13 @@ class SimConn(object):
 
 
 class SimNet(object):
+  direct_wake = False   # True: bytes arriving from a timer (peer delay) wake the parked reader at once, not via the run queue
+
+  def _in_hub(self):
+    import gevent
+    import greenlet
+    return greenlet.getcurrent() is gevent.get_hub()
+
   def __init__(self, loop):
     self.loop = loop
     self.conns = []
